@@ -15,7 +15,7 @@ import (
 // JitterTicker with a consumer, Reset and Stop racing the timer callback.
 
 func init() {
-	Register(&World{Name: "xtime", Props: []string{"C20"}, Concurrent: true, Timed: true, MaxSteps: 6000, Run: xtimeWorld})
+	Register(&World{Name: "xtime", Episodes: true, TaskStalls: true, Props: []string{"C20"}, Concurrent: true, Timed: true, MaxSteps: 6000, Run: xtimeWorld})
 	ExpectedProbes["xtime"] = []string{"sleep-d-nonpositive", "sleep-deadline-too-soon", "sleep-deadline-far", "sleep-cancelled-midway", "sleep-full", "ticker-jitter-zero", "ticker-jitter-max", "ticker-reset", "ticker-stop-with-callback-pending", "ticker-tick-dropped-or-buffered"}
 }
 
@@ -110,7 +110,7 @@ type hiddenDeadline struct{ context.Context }
 func (hiddenDeadline) Deadline() (time.Time, bool) { return time.Time{}, false }
 
 func oneSleep(r *R) {
-	strict := r.Cfg.StallPer1k == 0 && r.Cfg.LatePer1k == 0
+	strict := r.Cfg.StallPer1k == 0 && r.Cfg.LatePer1k == 0 && r.Cfg.TaskStallPer1k == 0
 	d := []time.Duration{50 * time.Millisecond, -time.Second, 0, time.Millisecond, 3 * time.Second, time.Hour}[r.Choose(6, "d")]
 	kind := r.Choose(12, "ctx") // 11: ends inside d with DeadlineExceeded, but its Deadline() reports none (a merged / wrapping context); 9: cancelled mid-sleep with a cause of its own, 10: already cancelled with a cause; 0 background, 1 deadline far, 2 deadline inside d, 3 deadline just inside, 4 deadline just beyond, 5 pre-cancelled, 6 cancelled mid-sleep, 7 deadline far AND cancelled mid-sleep, 8 deadline far AND already cancelled
 	root := NewCtx(nil, "root")
@@ -138,6 +138,9 @@ func oneSleep(r *R) {
 		hasDeadline = true
 	case 4:
 		remaining = pos + time.Nanosecond
+		if r.Choose(2, "exactly-d") == 1 {
+			remaining = pos // the deadline is exactly d away: not closer than d
+		}
 		ctx = NewDeadlineCtx(root, "just-beyond", remaining)
 		hasDeadline = true
 	case 11:
@@ -220,8 +223,8 @@ func oneSleep(r *R) {
 			} else if strict && elapsed != d {
 				r.Violate("C20", "sleep/returned-late", "SleepContext(d=%v) returned nil after %v in a run without injected delays", d, elapsed)
 			}
-			if strict {
-				if at, dead := ctx.ExpiredAt(); dead && at < c.InvAt+int64(d) {
+			{ // (in every run: whatever was slow, a context that ended before d had elapsed ended first)
+				if at, dead := ctx.EndedBy(); dead && at < c.InvAt+int64(d) {
 					r.Violate("C20", "sleep/ignored-context", "SleepContext(d=%v) returned nil although its context ended %v after the call", d, time.Duration(at-c.InvAt))
 				}
 			}
@@ -457,7 +460,7 @@ func tickerScenario(r *R) {
 	if !safely("Reset", func() { tk.Reset(d, j) }) {
 		return
 	}
-	strict := r.Cfg.StallPer1k == 0 && r.Cfg.LatePer1k == 0
+	strict := r.Cfg.StallPer1k == 0 && r.Cfg.LatePer1k == 0 && r.Cfg.TaskStallPer1k == 0
 	last := resetInv
 	for k := 0; k < 3; k++ {
 		t := sim.Pre("restart-recv")
